@@ -284,6 +284,10 @@ def run_traces(chk, rng, thorough):
             for target in ("fresh", "prior") + extras:
                 if k == 0 and target in ("prior", "copy-prior"):
                     continue
+                if target in extras and thorough:
+                    # thorough tier: every k on the first ten configurations, four values of k elsewhere
+                    if ci >= 10 and k not in (0, 1, T // 2, T):
+                        continue
                 if target in extras and not thorough:
                     # quick tier: all extra kinds on the first configurations at a few k, one rotating kind elsewhere
                     if ci < 3:
@@ -559,7 +563,7 @@ def run_classifier(chk, rng, thorough):
 
     mc("N2", consts(2))
     if thorough:
-        mc("N3", consts(3, b=2))
+        mc("N3", consts(3, b=1, maxrow=2))
     # what the constructor / the load hook must do, as rules TLC rejects
     mc("rule constructor leaves zeros", consts(2, rinit="zeros", maxrow=0), must_fail=True)
     mc("rule no load hook", consts(2, rhook="none", maxrow=0), must_fail=True)
